@@ -61,7 +61,6 @@ def c08_cases():
         # the supervisor is busy replacing them (with a slow on_process_up
         # callback) when terminate() arrives
         'mass': st.sampled_from([0, 0, 2, 3, 3]),
-        'gap': st.sampled_from([0.5, 0.9, 0.9, 1.2]),
     })
 
 
@@ -102,7 +101,12 @@ def execute_c08(case):
     steps.append(['sleep', 0.6])
     mass = case.get('mass', 0) if threads else 0
     if mass:
-        steps += [['kill_idle_n', mass, 15], ['sleep', case.get('gap', 0.7)]]
+        # the call is made right after the first replacement came up, i.e.
+        # while the supervisor sits in that worker's (slow) on_process_up
+        # callback with mass-1 forks still to do - never while a fork is in
+        # flight (that is finding D21, see DESIGN)
+        steps += [['kill_idle_n', mass, 15], ['wait_ups', 1, 20],
+                  ['sleep', 0.1]]
     steps.append(['snapshot', 'before'])
     if action == 'terminate':
         steps.append(['terminate'])
@@ -138,6 +142,16 @@ def execute_c08(case):
             ws = ' '.join(obs.get('worker_stacks', {}).values())
             if '__enter__' in ws and 'synchronize.py' in ws:
                 where = 'workers-blocked-on-queue-lock'
+                # D21: exactly one worker came up within 0.4 s of the start of
+                # terminate() and none later - its fork was in flight when the
+                # kill loop ran
+                ev = obs.get('events', [])
+                t_term = [float(e[2]) for e in ev if e[:2] == ['step', 'terminate']]
+                if t_term:
+                    late = [float(e[2]) - t_term[0] for e in ev
+                            if e[0] == 'up' and float(e[2]) > t_term[0] - 0.02]
+                    if len(late) == 1 and late[0] < 0.4:
+                        where = 'fork-in-flight'
             return bad('C08/terminate-hangs/%s' % where,
                        'terminate() did not return within %ss\n%s\nworkers:\n%s' % (
                            scen['watch'], obs['stacks'][-1500:], ws[-1500:]),
@@ -224,7 +238,7 @@ def execute_c07(case):
     work = 0.0
     if case.get('replace') and threads:
         # a worker is killed while idle and replaced before any job is offered
-        steps += [['sleep', 0.3], ['kill_idle', 9], ['sleep', 0.2],
+        steps += [['sleep', 0.3], ['kill_idle', 15], ['sleep', 0.2],
                   ['wait_size', case['procs'], 20]]
     for i, j in enumerate(case['jobs']):
         tag = 'j%d' % i
